@@ -53,7 +53,7 @@ func verif_Convert_ServerCommonConf_To_v1(conf *ServerCommonConf) {
 // The client side of the same conversion.
 //
 //verif:contract ~/pkg/config/legacy.Convert_ClientCommonConf_To_v1
-//verif:props C04 C05 C07 C14 C03
+//verif:props C04 C05 C07 C14
 //verif:kinds post,pre
 func verif_Convert_ClientCommonConf_To_v1(conf *ClientCommonConf) {
 	verif.ResetEvents()
@@ -87,23 +87,4 @@ func verif_Convert_ClientCommonConf_To_v1(conf *ClientCommonConf) {
 	verif.Ensures(tls.CertFile == conf.TLSCertFile && tls.KeyFile == conf.TLSKeyFile && tls.TrustedCaFile == conf.TLSTrustedCaFile && tls.ServerName == conf.TLSServerName, "tls_identity_files_and_server_name_keep_their_roles")
 	verif.Ensures(out.WebServer.User == conf.AdminUser && out.WebServer.Password == conf.AdminPwd, "admin_credentials_carried_over")
 	verif.Ensures(out.Transport.HeartbeatInterval == conf.HeartbeatInterval && out.Transport.HeartbeatTimeout == conf.HeartbeatTimeout && out.Transport.PoolCount == conf.PoolCount, "heartbeat_and_pool_settings_carried_over")
-	// C03 "datagram boundaries": the client's forwarders size their buffers by it
-	verif.Ensures(out.UDPPacketSize == conf.UDPPacketSize, "udp_packet_size_carried_over")
-}
-
-// Visitors and proxies of the legacy format: the encryption and the
-// compression switch each arrive under their own name (C05 "configured
-// encryption really protects the wire": a visitor that asked for encryption
-// must not come out with compression instead).
-//
-//verif:getter (~/pkg/config/legacy.VisitorConf).GetBaseConfig
-//verif:contract ~/pkg/config/legacy.Convert_VisitorConf_To_v1_Base
-//verif:props C05 C08 C18
-//verif:kinds post
-func verif_Convert_VisitorConf_To_v1_Base(conf VisitorConf) {
-	verif.Requires(conf != nil, "a_parsed_visitor")
-	base := conf.GetBaseConfig()
-	enc, comp := base.UseEncryption, base.UseCompression
-	out := Convert_VisitorConf_To_v1_Base(conf)
-	verif.Ensures(out != nil && out.Transport.UseEncryption == enc && out.Transport.UseCompression == comp, "encryption_and_compression_each_under_their_own_name")
 }
